@@ -71,7 +71,7 @@ def _chunk(arg):
     seed, idxs, n_ops = arg
     out = {"cases": 0, "fails": [], "samples": [], "hashes": [], "ops": {}}
     for idx in idxs:
-        c = corr_play.make_case(seed, f"browser:{idx}", dict(hooks=0, join=0, params=0.4, loops=0.5, conds=0.8, one_time=0.5, inputs=0.2),
+        c = corr_play.make_case(seed, f"browser:{idx}", dict(hooks=0, join=0, params=0.4, loops=0.5, conds=0.8, one_time=0.5, inputs=0.2, odd_colons=0.5),
                                 n_ops, "main", dict(choose=62, undo=12, redo=8, save=5, load=4, fresh=3, goto=0, read=3, bad=3, loadbad=0, reset=0))
         if "story" not in c or c["real"].get("status") == "unmodelled":
             continue
@@ -122,7 +122,8 @@ def bundle_check(rep, n, seed):
             except Exception:  # noqa
                 continue
             with quiet():
-                create_browser_bundle(main, os.path.join(d, "out"), minimal=True)
+                # (every third bundle gets a display name of its own: the name belongs to the page, not to the story)
+                create_browser_bundle(main, os.path.join(d, "out"), minimal=True, **({"game_name": "Release Build 2"} if i % 3 == 0 else {}))
             got = json.load(open(os.path.join(d, "out", "game.json")))
             if got != ref:
                 rep.violations.append({"cls": None, "family": "c19-bundle", "what": "the bundle's game.json differs from `bardic compile`'s output", "source": src})
